@@ -1,6 +1,6 @@
 """C09 -- cumulative intensity measures: length, monotonicity, scaling laws, quadrature kind (typing obligations)."""
 from ..tyob import *  # noqa
-from ..tyob import analyse, expect, unmodelled_in, const_values
+from ..tyob import analyse, expect, unmodelled_in, const_values, check_forwarder
 
 ACC = "eqsig.single.AccSignal"
 #            function                               deg(R) deg(DT)  quadrature tags (has / not)            source tags
@@ -35,6 +35,7 @@ def run(chk):
         unmodelled_in(r, chk, "R-IM-TYPE", c)
         expect(chk, "R-IM-TYPE", c, r.ret, length="n", mono=0, sign="nonneg", deg={R: dr, DT: dd}, parity={R: "even"},
                tags_has=has + ["attr:_values", "attr:_dt"], tags_not=hasnot, kind=K_ARRAY, loc=r.fi.loc())
+    check_forwarder(chk, "R-IM-TYPE", "eqsig.im.calc_cumulative_abs_displacement", "eqsig.im.calc_integral_of_abs_velocity")
     # starts at zero for the trapezoid-defined ones (initial=0)
     for q in ("eqsig.im.calc_arias_intensity", "eqsig.im.calc_cav", "eqsig.im.calc_isv"):
         r = analyse(chk, q, sig_arg(chk.P.fn(q).params[0]))
